@@ -1,5 +1,6 @@
 """Library models, part 2: calls, methods, context managers, loop schemas."""
 import ast
+import hashlib
 import z3
 from . import sorts as T
 from .values import *  # noqa
@@ -45,6 +46,9 @@ def _yaml_roundtrip(ax, t):
 
 
 T.YAML_HOOK.append(_yaml_roundtrip)
+
+
+ALL_WS = frozenset(chr(i) for i in range(0x110000) if chr(i).isspace())
 
 
 def cstr(v):
@@ -188,6 +192,25 @@ class FullLib(Lib):
             return VInt(h.f["pos"])
         if name == "seek":
             off = self.as_int(it, args[0]).term
+            whence = 0
+            if len(args) > 1 or "whence" in kwargs:
+                w = args[1] if len(args) > 1 else kwargs["whence"]
+                names = {"os.SEEK_SET": 0, "os.SEEK_CUR": 1, "os.SEEK_END": 2,
+                         "io.SEEK_SET": 0, "io.SEEK_CUR": 1, "io.SEEK_END": 2}
+                if isinstance(w, VExt) and w.name in names:
+                    whence = names[w.name]
+                elif isinstance(w, VInt) and z3.is_int_value(z3.simplify(w.term)):
+                    whence = z3.simplify(w.term).as_long()
+                else:
+                    raise Undecided(f"seek with whence {w}")
+            if whence != 0:
+                if h.f["pos"] is None or not h.f["binary"]:
+                    raise Undecided("relative seek on a text or append handle")
+                base = h.f["pos"] if whence == 1 else z3.Length(self.handle_content(it, h))
+                off = base + off
+            if not z3.is_int_value(z3.simplify(off)) or z3.simplify(off).as_long() < 0:
+                if ctx.branch(off < 0):
+                    it.raise_("OSError")       # EINVAL: negative resulting position
             h.f["pos"] = off
             ctx.event("seek", handle=h, pos=off)
             return VInt(off)
@@ -199,8 +222,13 @@ class FullLib(Lib):
             pos = h.f["pos"]
             n = z3.Length(content)
             rest = z3.SubString(content, pos, n - pos)
-            if args:
-                raise Undecided("read(n) outside the stream schema")
+            if args and not isinstance(args[0], VNone):
+                k = z3.simplify(self.as_int(it, args[0]).term)
+                if not (h.f["binary"] and z3.is_int_value(k) and k.as_long() >= 0):
+                    raise Undecided("read(n) outside the stream schema")
+                piece = z3.SubString(content, pos, k)     # clipped at the end of the file
+                h.f["pos"] = pos + z3.Length(piece)
+                return VBytes(piece)
             h.f["pos"] = n
             if h.f["binary"]:
                 return VBytes(rest)
@@ -285,6 +313,23 @@ class FullLib(Lib):
         if h.f["binary"]:
             if not isinstance(data, VBytes):
                 it.raise_("TypeError")
+            if h.f["mode"] == "r+":
+                # a binary write at the end of the file appends (any other offset would overwrite
+                # in place, which only the text-mode rewrite schema models)
+                if not ctx.implied(h.f["pos"] == z3.Length(T.as_text(st))):
+                    raise Undecided("binary write to an r+ handle not at the end of the file")
+                b = data.term
+                if z3.is_app(b) and b.decl().name() == "utf8":
+                    txt = b.arg(0)
+                elif z3.is_string_value(b) and all(ord(c) < 128 for c in T.zstr(b)):
+                    txt = b
+                else:
+                    raise Undecided("binary write of non-text bytes to an r+ handle")
+                new = self._appended(it, st, txt)
+                self.fs_set(it, loc, new)
+                h.f["pos"] = z3.Length(T.as_text(new))
+                ctx.event("write", loc=loc, old=st, new=new)
+                return VInt(ctx.fresh("nwritten", T.I))
             if h.f["mode"] not in ("w", "a"):
                 raise Undecided("binary write to r+ handle")
             new = T.Data(z3.Concat(T.as_text(st), data.term))
@@ -303,19 +348,23 @@ class FullLib(Lib):
                 return VInt(ctx.fresh("nwritten", T.I))
             if h.f["mode"] not in ("w", "a"):
                 raise Undecided("text write to r+ handle")
-            # a write of  <identifier> + "\n"  appends one line to a line file
-            line = _line_of(s)
-            if line is not None:
-                ctx.oblige("refs/line-is-wsfree", T.wsfree(line), props=("C18", "C05"))
-                m = T.as_lines(st)
-                new = T.LinesF(z3.Store(m, line, z3.Select(m, line) + 1))
-            else:
-                if not ctx.implied(z3.Or(T.is_Absent(st), T.is_Data(st))):
-                    raise Undecided("raw text appended to a line file")
-                new = T.Data(z3.Concat(T.as_text(st), s))
+            new = self._appended(it, st, s)
         self.fs_set(it, loc, new)
         ctx.event("write", loc=loc, old=st, new=new)
         return VInt(ctx.fresh("nwritten", T.I))
+
+    def _appended(self, it, st, s):
+        """File state after appending text s."""
+        ctx = it.ctx
+        # a write of  <identifier> + "\n"  appends one line to a line file
+        line = _line_of(s)
+        if line is not None:
+            ctx.oblige("refs/line-is-wsfree", T.wsfree(line), props=("C18", "C05"))
+            m = T.as_lines(st)
+            return T.LinesF(z3.Store(m, line, z3.Select(m, line) + 1))
+        if not ctx.implied(z3.Or(T.is_Absent(st), T.is_Data(st))):
+            raise Undecided("raw text appended to a line file")
+        return T.Data(z3.Concat(T.as_text(st), s))
 
     def file_close(self, it, h):
         if h.f["closed"]:
@@ -362,6 +411,10 @@ class FullLib(Lib):
                 return z3.BoolVal(isinstance(x, VObj) and x.cls in EXC_PARENT and is_subclass(x.cls, n))
             raise Undecided(f"isinstance(.., {n})")
         return z3.BoolVal(bool(table[n]()))
+
+    def c_unicodedata_normalize(self, it, form, x):
+        return VStr(T.uni_normalize(self.need_str(it, form, "TypeError").term,
+                                    self.need_str(it, x, "TypeError").term))
 
     def c_len(self, it, x):
         if isinstance(x, (VStr, VBytes)):
@@ -453,7 +506,34 @@ class FullLib(Lib):
     def c_set(self, it, x=None):
         if x is None:
             return VList([], kind="set")
+        if isinstance(x, VStr) and x.concrete() is not None:
+            return VList([VStr(c) for c in sorted(set(x.concrete()))], kind="set")
         return self.make_set(it, x)
+
+    def c_frozenset(self, it, x=None):
+        r = self.c_set(it, x)
+        return VList(list(r.items), list(r.guards), kind="frozenset")
+
+    def charset_hits(self, it, cs, s):
+        """any(ch in cs for ch in s) for a concrete set of characters cs."""
+        chars = []
+        for g, e in zip(cs.guards, cs.items):
+            c = e.concrete() if isinstance(e, VStr) else None
+            if c is None or len(c) != 1 or not z3.is_true(g):
+                raise Undecided("character test against a set that is not a set of characters")
+            chars.append(c)
+        chars = frozenset(chars)
+        st = self.need_str(it, s, "TypeError").term
+        if chars == ALL_WS:
+            return T.hasws(st)
+        key = "anychar_" + hashlib.sha256("".join(sorted(chars)).encode()).hexdigest()[:10]
+        pred = z3.Function(key, T.S, T.B)(st)
+        if chars <= ALL_WS:
+            it.ctx.assume(z3.Implies(pred, T.hasws(st)))    # every listed character is whitespace
+        if z3.is_string_value(st):
+            it.ctx.assume(pred == z3.BoolVal(any(c in chars for c in T.zstr(st))))
+        it.ctx.assume(z3.Implies(st == T.EMPTY, z3.Not(pred)))
+        return pred
 
     def c_zip(self, it, a, b):
         if isinstance(a, VList) and isinstance(b, VList) and len(a.items) == len(b.items):
@@ -813,7 +893,7 @@ class FullLib(Lib):
         if isinstance(obj, (VStr, VDyn, VOpaque)):
             return self.str_method(it, obj, name, args)
         if isinstance(obj, VList):
-            if name == "append":
+            if name == "append" and obj.kind == "list":
                 obj.items.append(args[0])
                 obj.guards.append(TRUE)
                 return NONE
@@ -822,6 +902,11 @@ class FullLib(Lib):
                     obj.items.append(x)
                     obj.guards.append(TRUE)
                 return NONE
+            if name == "isdisjoint" and obj.kind in ("set", "frozenset") and \
+                    isinstance(args[0], (VStr, VDyn)):
+                return VBool(z3.Not(self.charset_hits(it, obj, args[0])))
+            if obj.kind == "frozenset" and name in ("append", "extend", "add"):
+                it.raise_("AttributeError")
             raise Undecided(f"list.{name}")
         if isinstance(obj, VDict):
             if name == "get":
